@@ -102,6 +102,36 @@ def ident_name(i):
     return sname(i.fields[1])
 
 
+def name_is(s, text):
+    """condition `the string s equals text`: python bool for concrete names, Z3 term for symbolic ones"""
+    if isinstance(s, Adt) and s.ty == 'Identifier':
+        s = s.fields[1]
+    if isinstance(s, Str) and s.concrete:
+        return s.v == text
+    return s.z() == z3.StringVal(text)
+
+
+def name_starts(s, text):
+    if isinstance(s, Adt) and s.ty == 'Identifier':
+        s = s.fields[1]
+    if isinstance(s, Str) and s.concrete:
+        return s.v.startswith(text)
+    return z3.PrefixOf(z3.StringVal(text), s.z())
+
+
+def var_is(e, text):
+    """the expression is the identifier `text` (condition)"""
+    e = unbox(e)
+    if not (isinstance(e, Adt) and e.ty == 'Expression' and e.variant == 'Variable'):
+        return False
+    return name_is(e.fields[0], text)
+
+
+def three(flag, free=False):
+    """(flag, never) from a flag condition and a free condition"""
+    return flag, band(bnot(flag), bnot(free))
+
+
 def is_type_call(e, tnames):
     e = unbox(e)
     if e.variant != 'FunctionCall':
@@ -145,19 +175,18 @@ ARITH10 = ('Add', 'Subtract', 'Multiply', 'Divide', 'Modulo', 'ShiftLeft', 'Shif
 def address_balance(n, ctx):
     if n.variant != 'MemberAccess':
         return NEVER
-    if ident_name(n.fields[2]) != 'balance':
-        return NEVER
+    is_balance = name_is(n.fields[2], 'balance')
     base = unbox(n.fields[1])
     if base.variant == 'FunctionCall':
         callee = unbox(base.fields[1])
         if callee.variant == 'Type':
             t = callee.fields[1].variant
             if t == 'Address' and len(base.fields[2].items) == 1:
-                return FLAG
-            return FREE
+                return three(is_balance)
+            return three(False, is_balance)
         return NEVER
     if base.variant == 'Parenthesis':
-        return FREE
+        return three(False, is_balance)
     return NEVER
 
 
@@ -248,9 +277,9 @@ def assign_update_array_value(n, ctx):
 def cache_array_length(n, ctx):
     if n.variant != 'MemberAccess':
         return NEVER
-    if ident_name(n.fields[2]) != 'length':
+    if not ctx.for_cond:
         return NEVER
-    return FLAG if ctx.for_cond else NEVER
+    return three(name_is(n.fields[2], 'length'))
 
 
 def increment_decrement(n, ctx):
@@ -267,13 +296,12 @@ def increment_decrement(n, ctx):
 def multiple_require(n, ctx):
     if n.variant != 'FunctionCall':
         return NEVER
-    if not is_var(n.fields[1], 'require'):
-        return NEVER
+    req = var_is(n.fields[1], 'require')
     args = n.fields[2].items
     if any(a.variant == 'And' for a in args):
-        return FLAG
+        return three(req)
     if any(a.variant == 'Parenthesis' for a in args):
-        return FREE
+        return three(False, req)
     return NEVER
 
 
@@ -349,7 +377,7 @@ def shift_math(n, ctx):
 def solidity_keccak256(n, ctx):
     if n.variant != 'FunctionCall':
         return NEVER
-    return FLAG if is_var(n.fields[1], 'keccak256') else NEVER
+    return three(var_is(n.fields[1], 'keccak256'))
 
 
 def solidity_math(n, ctx):
@@ -360,7 +388,7 @@ def solidity_math(n, ctx):
 def unsafe_erc20_operation(n, ctx):
     if n.variant != 'MemberAccess':
         return NEVER
-    return FLAG if ident_name(n.fields[2]) in ('transfer', 'transferFrom', 'approve') else NEVER
+    return three(bor(*[name_is(n.fields[2], t) for t in ('transfer', 'transferFrom', 'approve')]))
 
 
 def _left_chain(e, through, target):
@@ -843,13 +871,13 @@ def private_vars_leading_underscore(su, meta=None):
         if info['constant']:
             out.append((node, lid, False, True))
             continue
-        name, vis = info['name'], info['vis']
-        us = name.startswith('_')
-        should = (vis in ('Private', 'Internal') and not us) or (vis == 'Public' and us)
+        vis = info['vis']
+        us = name_starts(vd.fields[3], '_')
+        should = bnot(us) if vis in ('Private', 'Internal') else (us if vis == 'Public' else False)
         if vis == 'External':
             out.append((node, lid, False, False))
         else:
-            out.append((node, lid, should, not should))
+            out.append((node, lid, should, bnot(should)))
     for n, ctx in walk(su):
         if n.ty == 'SourceUnitPart' and n.variant == 'VariableDefinition':
             vd = unbox(n.fields[0])
@@ -873,9 +901,9 @@ def private_func_leading_underscore(su, meta=None):
         if ctx.contract is None or kind != 'Function' or vis is None:
             out.append((n, lid, False, True))
             continue
-        us = ident_name(name_ident).startswith('_')
-        should = (vis in ('Public', 'External') and us) or (vis in ('Private', 'Internal') and not us)
-        out.append((n, lid, should, not should))
+        us = name_starts(name_ident, '_')
+        should = us if vis in ('Public', 'External') else bnot(us)
+        out.append((n, lid, should, bnot(should)))
     return out
 
 
